@@ -242,9 +242,11 @@ Inductive cfgarg := CfgNil | CfgWrongType | CfgVal.
 
 (* UpdateAddresses + Connect on every pool connection, then on every
    replacement connection of a refresh in flight *)
-Definition update_all (s : bal) : list out :=
-  flat_map (fun kv => [OUpdAddr (fst kv) (b_addrs s); OConnect (fst kv)]) (b_screfs s) ++
+Definition update_refr (s : bal) : list out :=
   flat_map (fun kv => [OUpdAddr (fst kv) (b_addrs s); OConnect (fst kv)]) (b_refr s).
+
+Definition update_all (s : bal) : list out :=
+  flat_map (fun kv => [OUpdAddr (fst kv) (b_addrs s); OConnect (fst kv)]) (b_screfs s) ++ update_refr s.
 
 (* func (gb gcpBalancer) UpdateClientConnState(ccs balancer.ClientConnState) error *)
 Definition UpdateClientConnState (s : bal) (addrs : N) (a : cfgarg) (raw : option config)
@@ -264,7 +266,7 @@ Definition UpdateClientConnState (s : bal) (addrs : N) (a : cfgarg) (raw : optio
   | None => (s1, [], RCfgErr)
   | Some (s2, o2) =>
       if (length (b_screfs s2) =? 0)%nat then
-        let '(s3, _, o3) := addSubConn s2 in (s3, o2 ++ o3, RNone)
+        let '(s3, _, o3) := addSubConn s2 in (s3, o2 ++ o3 ++ update_refr s3, RNone)
       else (s2, o2 ++ update_all s2, RNone)
   end.
 
